@@ -2,8 +2,8 @@ package main
 
 import (
 	"fmt"
-	"runtime"
 	"os"
+	"runtime"
 	"time"
 
 	"verif/e1"
@@ -14,7 +14,7 @@ import (
 func smoke() {
 	sc := &e1.Scenario{Name: "smoke", Hist: "H1", StartFile: "mysql-bin.000001", StartPos: 4, ServerID: 1234,
 		Attempts: []e1.Attempt{{Plan: simmaster.NoFault(), FailAt: -1, BlockAt: -1, HandlerMode: "ok"}},
-		Pacing: os.Getenv("PACING"), MapperFailAt: -1, MapperMismatchAt: -1}
+		Pacing:   os.Getenv("PACING"), MapperFailAt: -1, MapperMismatchAt: -1}
 	if sc.Pacing == "" {
 		sc.Pacing = "first"
 	}
